@@ -360,6 +360,17 @@ def gen_history(ctx, other, k):
         other("history-" + variant, "seq " + ";".join(e["ev"] for e in evs), dict(op="seq", hist=k, variant=variant, events=evs))
 
 
+PROM_SAMPLE = re.compile(rb"^[a-zA-Z_:][a-zA-Z0-9_:]*(\{.*\})? \S+( -?\d+)?$")
+
+
+def prom_exposition(body):
+    """text exposition format (possibly of an empty registry; the driver cuts long bodies: the last line may be partial)"""
+    lines = body.split(b"\n")
+    if len(body) >= 4096:
+        lines = lines[:-1]
+    return all(l == b"" or l.startswith(b"# HELP ") or l.startswith(b"# TYPE ") or PROM_SAMPLE.match(l) for l in lines)
+
+
 def unhexb(tok):
     return bytes.fromhex(tok[1:]) if tok.startswith("x") else None
 
@@ -404,8 +415,8 @@ def eval_refined(ctx, slines, sinfo):
                 if path == "/debug" and d.get("status") == "200" and m["method"] not in ("OPTIONS", "HEAD"):
                     gb = norm_debug(gb)
                 if path == "/prometheus":
-                    if d.get("status") == "200" and m["method"] != "HEAD" and b"# TYPE " not in gb:
-                        bad, key = "/prometheus body is not a metrics exposition", "no-wellformed-response"
+                    if d.get("status") == "200" and m["method"] != "HEAD" and not prom_exposition(gb):
+                        bad, key = "/prometheus body is not a metrics exposition: %r" % gb[:120], "no-wellformed-response"
                     gb = mb = b""
                 if md.get("status") == "301":
                     gb = mb = b""        # the mux's redirect page is net/http's
